@@ -3,7 +3,7 @@
 From Coq Require Import List NArith ZArith Bool Arith Lia.
 From SK Require Import lib.Tok lib.LGraph lib.Mono.
 From SK Require model.C06_Model model.C11_Model.
-From SK Require Import model.C03_Model model.C05_Model proof.C05_Proof proof.C05_Glue proof.C05_Pipe proof.C05_Prep proof.C05_Comp proof.C05_Main.
+From SK Require Import model.C03_Model model.C05_Model proof.C05_Proof proof.C05_Glue proof.C05_Pipe proof.C05_Prep proof.C05_Comp proof.C05_Main proof.C05_Order.
 Import ListNotations.
 
 (** sz: Suzuki-type rule [C:1][Br:2].[B:3][C:4]>>[C:1][C:4].[B:3][Br:2] applied backwards to CCC(C)C.OB(O)Br (the
@@ -95,3 +95,31 @@ Example all_strategies_nonvacuous :
   pipeline false true false 1%N (relabel sz_pi ds_host) (relabel sz_sg ds_tpl)
   = option_map (map (relabel sz_pi)) (pipeline false true false 1%N ds_host ds_tpl).
 Proof. repeat split; vm_compute; reflexivity. Qed.
+
+(** BrCCI written backwards: nodes and bonds in reverse insertion order, every stored bond flipped *)
+Definition hx_host2 : hostg :=
+  LG (rev (gnodes hx_host)) (map (fun e : N * N * Z => let '(a, b, o) := e in (b, a, o)) (rev (gedges hx_host))).
+
+Lemma hx_same : same_graph hx_host hx_host2.
+Proof.
+  split; [|split; [|split; [|split]]].
+  - intros u. unfold label; simpl.
+    repeat match goal with |- context [N.eqb u ?k] => destruct (N.eqb_spec u k); [subst u; simpl; try reflexivity|] end; reflexivity.
+  - intros u v. unfold LGraph.adj, hx_host2, hx_host. cbn [gedges rev map app find_edge].
+    repeat match goal with
+           | |- context [N.eqb ?k u] => destruct (N.eqb_spec k u); [subst u|]
+           | |- context [N.eqb ?k v] => destruct (N.eqb_spec k v); [subst v|]
+           end; cbn; try reflexivity; try congruence.
+  - intros u. simpl. tauto.
+  - simpl. repeat constructor; simpl; intuition discriminate.
+  - simpl. repeat constructor; simpl; intuition discriminate.
+Qed.
+
+Example matches_order_nonvacuous :
+  same_graph hx_host hx_host2 /\ gnodes hx_host2 <> gnodes hx_host /\
+  length (matches 0%N hx_host (p_pat hx_p)) = 1%nat /\
+  (forall m, In m (matches 0%N hx_host (p_pat hx_p)) <-> In m (matches 0%N hx_host2 (p_pat hx_p))).
+Proof.
+  split; [exact hx_same|]. split; [vm_compute; discriminate|]. split; [vm_compute; reflexivity|].
+  apply matches_all_host_order. exact hx_same.
+Qed.
